@@ -619,6 +619,8 @@ def build_classes(world):
                 kw['name_in_config'] = p['nic']
             if p.get('dtype'):
                 kw['dtype'] = {'int': int, 'str': str, 'float': float, 'bool': bool, 'list': list, 'dict': dict, 'Path': Path}[p['dtype']]
+                if p.get('pathobj_default') and isinstance(kw.get('default'), str):
+                    kw['default'] = Path(kw['default'])
             par_list.append(Parameter(p['name'], **kw))
         seen_patterns = set()
         for inp in c['inputs']:
